@@ -541,7 +541,19 @@ def c19(ctx):
             raise build.BuildError('API probe (link phase) failed for another reason than undefined references, %s/%d:\n%s' % (cfg.name, g, p2.stdout[-2000:]))
         if os.path.exists(exe):
             os.unlink(exe)
-        return cfg, g, decl, undef
+        # two translation units of one program: "generic code ... builds and links"
+        o1, o2 = exe + '_1.o', exe + '_2.o'
+        multi = set()
+        pa = subprocess.run(base + ['-DVH_PHASE=2', '-c', '-o', o1], stdout=subprocess.PIPE, stderr=subprocess.STDOUT, universal_newlines=True)
+        pb = subprocess.run(base + ['-DVH_PHASE=2', '-DVH_TU2', '-c', '-o', o2], stdout=subprocess.PIPE, stderr=subprocess.STDOUT, universal_newlines=True)
+        if pa.returncode == 0 and pb.returncode == 0:
+            pl = subprocess.run([cfg.cxx, o1, o2, '-o', exe], stdout=subprocess.PIPE, stderr=subprocess.STDOUT, universal_newlines=True)
+            for m in re.finditer(r"multiple definition of `([^']*)'", pl.stdout):
+                multi.add(m.group(1))
+        for f in (o1, o2, exe):
+            if os.path.exists(f):
+                os.unlink(f)
+        return cfg, g, decl, undef, multi
 
     ctx.log('API probes ...')
     with ThreadPoolExecutor(max_workers=16) as ex:
@@ -560,7 +572,9 @@ def c19(ctx):
 
     api_lines = []
     n_api = 0
-    for cfg, g, decl, undef in api_results:
+    for cfg, g, decl, undef, multi in api_results:
+        for sym in sorted(multi):
+            api_lines.append(('%s/%d' % (cfg.name, g), '{"o":"api","k":"c","op":%s,"t":"?","declared_w1":1,"declared":1,"defined":1,"multiple":1,"sig":"none"}' % json.dumps(sym[:150])))
         for ln in decl:
             parts = ln.split()
             if len(parts) != 4:
